@@ -27,6 +27,13 @@ DIAG_VECTORS = {
 NON_ASCII = ("fn f() {\n\tlet s = \"" + "é" * 95 + "\";\n}\n",
              # white space that is longer than one byte in front of a comment's `*`, of code, of `//`
              "fn f() {\n    /* a\n\u3000* b\n\u00a0\u2003* c\n     */\n\u3000let x = 1;\n\u2003// d\n}\n",
+             # empty comments inside statements / expressions that have to be laid out again
+             "fn f() {\n    let x = foo( /**/ 1,2);\n}\n",
+             "fn f() {\n    let y = 1 /**/ + 2;\n    let z /* */ = [ /***/ 3,4 ];\n}\n",
+             "fn f() {\n    g( 5 , //\n 6 );\n    static S: u8 = /**/ 1 ;\n}\nconst C: u8 /**/ =   2;\n",
+             # a where clause that starts beyond a narrow page (Visual style adds `where `)
+             "mod a { mod b { mod c { fn f<T>() where T: Copy {} } } }\n"
+             "mod d {\n    mod e {\n        impl<T> S<T> where T: Copy + Clone {\n            fn g<U>(&self) where U: Send {}\n        }\n    }\n}\n",
              # items a formatter may not know: delegation
              "impl Trait for S {\n    reuse   to_reuse::a;\n    reuse to_reuse::{b,  c};\n    fn  g( ){}\n}\n"
              "reuse   free::f;\n",
